@@ -553,6 +553,7 @@ package service
 //@ props C19
 //@ modifies raw
 //@ maypanic
+//@ requires well_typed_context_records: forall s Str :: {mapGet_Map_Str_RequestContext(data.RequestContexts, s)} rng_RequestContext(mapGet_Map_Str_RequestContext(data.RequestContexts, s))
 //@ requires as_exported_no_nil_withdraw_address: forall s Str :: {mapHas_Map_Str_Bytes(data.WithdrawAddresses, s)} mapHas_Map_Str_Bytes(data.WithdrawAddresses, s) ==> mapGet_Map_Str_Bytes(data.WithdrawAddresses, s) != bnil
 //@ loop 0 invariant seen: 0 <= iter && iter <= len(data.Definitions)
 //@ loop 0 invariant definitions_written_so_far: raw == wrDefs(old(raw), data.Definitions, iter)
